@@ -38,15 +38,15 @@ type FTy = map::format::Type;
 // ------------------------------------------------------------------------------------------
 // wire encoding (shared with lean/Noodles/Vcf/DriverC09.lean)
 
-fn list(xs: Vec<String>) -> String {
+pub(super) fn list(xs: Vec<String>) -> String {
     if xs.is_empty() { "~".into() } else { xs.join(",") }
 }
 
-fn hx(s: &str) -> String {
+pub(super) fn hx(s: &str) -> String {
     hex(s.as_bytes())
 }
 
-fn enc_inum(n: INum) -> String {
+pub(super) fn enc_inum(n: INum) -> String {
     match n {
         INum::Count(k) => k.to_string(),
         INum::AlternateBases => "A".into(),
@@ -55,7 +55,7 @@ fn enc_inum(n: INum) -> String {
         INum::Unknown => "U".into(),
     }
 }
-fn enc_fnum(n: FNum) -> String {
+pub(super) fn enc_fnum(n: FNum) -> String {
     match n {
         FNum::Count(k) => k.to_string(),
         FNum::AlternateBases => "A".into(),
@@ -69,7 +69,7 @@ fn enc_fnum(n: FNum) -> String {
         FNum::Unknown => "U".into(),
     }
 }
-fn enc_ity(t: ITy) -> &'static str {
+pub(super) fn enc_ity(t: ITy) -> &'static str {
     match t {
         ITy::Integer => "I",
         ITy::Float => "F",
@@ -78,7 +78,7 @@ fn enc_ity(t: ITy) -> &'static str {
         ITy::String => "S",
     }
 }
-fn enc_fty(t: FTy) -> &'static str {
+pub(super) fn enc_fty(t: FTy) -> &'static str {
     match t {
         FTy::Integer => "I",
         FTy::Float => "F",
@@ -1310,7 +1310,7 @@ fn opt_s(x: Option<&str>) -> String {
 }
 
 /// ordered canonical dump of a header value (the same printer exists in DriverC09.lean)
-fn dump_header(h: &vcf::Header) -> String {
+pub(super) fn dump_header(h: &vcf::Header) -> String {
     let mut out = vec![format!("ver={}.{}", h.file_format().major(), h.file_format().minor())];
     for (id, m) in h.infos() {
         out.push(format!("I:{}:{}:{}:{}:{}:{}", hx(id), enc_inum(m.number()), enc_ity(m.ty()), hx(m.description()), opt_n(m.idx()), others(m.other_fields())));
@@ -1343,7 +1343,7 @@ fn dump_header(h: &vcf::Header) -> String {
 
 /// `Map<Other>::id_tag` is crate-private; it is observable through the writer only. Recover it by
 /// writing a one-record header.
-fn map_other_id_tag(m: &Map<map::Other>) -> String {
+pub(super) fn map_other_id_tag(m: &Map<map::Other>) -> String {
     let mut h = vcf::Header::default();
     let key: vcf::header::record::key::Other = "zzTagProbe".parse().unwrap();
     if h.insert(key, vcf::header::record::Value::Map("i".into(), m.clone())).is_err() {
@@ -1363,7 +1363,7 @@ fn map_other_id_tag(m: &Map<map::Other>) -> String {
     }
 }
 
-fn real_write_header(h: &vcf::Header) -> Result<String, String> {
+pub(super) fn real_write_header(h: &vcf::Header) -> Result<String, String> {
     let mut w = vcf::io::Writer::new(Vec::new());
     match w.write_header(h) {
         Ok(()) => String::from_utf8(w.into_inner()).map_err(|_| "err:non-utf8".into()),
@@ -1371,7 +1371,7 @@ fn real_write_header(h: &vcf::Header) -> Result<String, String> {
     }
 }
 
-fn real_read_header(text: &str) -> Result<vcf::Header, String> {
+pub(super) fn real_read_header(text: &str) -> Result<vcf::Header, String> {
     let mut reader = vcf::io::Reader::new(text.as_bytes());
     reader.read_header().map_err(|e| io_err_variant(&e))
 }
@@ -1776,6 +1776,7 @@ fn corpus(ctx: &mut Ctx, only: Option<usize>) {
 
 pub fn run(ctx: &mut Ctx) {
     if let Some(case) = ctx.replay_only.clone() {
+        if super::c09_header::replay(ctx, &case) { return; }
         let sub: u64 = case.get(1).and_then(|s| s.parse().ok()).unwrap_or(0);
         match case.first().map(|s| s.as_str()) {
             Some("rec") => record_case(ctx, sub, true),
@@ -1799,5 +1800,6 @@ pub fn run(ctx: &mut Ctx) {
     for it in 0..n {
         header_case(ctx, ctx.seed.wrapping_mul(1_000_211).wrapping_add(it));
     }
+    super::c09_header::run(ctx);
     ctx.sample(|| "c09 line <header ctx> <float tables> <hex of: sq0 1 . A . . . C=%3B GT 0/1 .> => e=… l=… end=1/1".into());
 }
